@@ -30,13 +30,42 @@ Definition ranges_of (nser : nat) (t : table) : franges :=
                         | Some a, Some b => [(s, a, b)] | _, _ => [] end) (zrange nser)).
 Definition files_obs (nser : nat) (l : list file) : list fobs := map (fun f => (f_seq f, ranges_of nser (f_tab f))) l.
 
+(* mode 3 of merge-self = today's member order with ANY tie order among chunks of equal minimum time: the evaluator tries
+   the permutations of the members as tie-break and keeps the first one that reproduces the reads observed after the op
+   (fallback: ties in sequence order). Modes 0 (repaired), 1, 2 do not look at the observation. *)
+Fixpoint insert_all {A} (x : A) (l : list A) : list (list A) :=
+  match l with
+  | [] => [[x]]
+  | y :: r => (x :: l) :: map (cons y) (insert_all x r)
+  end.
+Fixpoint perms {A} (l : list A) : list (list A) :=
+  match l with
+  | [] => [[]]
+  | x :: r => concat (map (insert_all x) (perms r))
+  end.
+Definition ms_candidates (grp : list Z) (L : layout) : list (list Z) :=
+  let seqs := map f_seq (filter (in_grp grp) (ooo L)) in
+  if (length seqs <=? 5)%nat then perms seqs else [seqs; rev seqs].
+Definition step_obs (wc : bool) (mc : Z) (nser : nat) (L : layout) (o : op) (dump : table) : layout :=
+  match o with
+  | MergeSelf g n =>
+      if mc =? 3 then
+        match find (fun L' => list_eqb row_eqb (read_all nser L') dump)
+                   (map (fun pi => merge_self_rank pi g n L) (ms_candidates g L)) with
+        | Some L' => L'
+        | None => merge_self_m 1 g n L
+        end
+      else step2 wc mc L o
+  | _ => step2 wc mc L o
+  end.
+
 (* code: 1 dump differs, 2 ordered files differ, 3 out-of-order files differ, 4 op parameters not allowed, 5 layout invariant broken *)
 Fixpoint check_from (wc : bool) (mc : Z) (nser : nat) (i : nat) (L : layout) (h : list (op * obs)) : option (nat * nat) :=
   match h with
   | [] => None
   | (o, ob) :: r =>
       if negb (op_ok L o && write_ok o) then Some (i, 4%nat) else
-      let L' := step2 wc mc L o in
+      let L' := step_obs wc mc nser L o (o_dump ob) in
       if negb (layout_ok L') then Some (i, 5%nat) else
       if negb (list_eqb row_eqb (read_all nser L') (o_dump ob)) then Some (i, 1%nat) else
       if negb (list_eqb fobs_eqb (files_obs nser (ord L')) (o_ord ob)) then Some (i, 2%nat) else
